@@ -24,6 +24,7 @@ import (
 	"fmt"
 	"os"
 	"runtime"
+	"strings"
 	"time"
 
 	"github.com/anacrolix/torrent/bencode"
@@ -107,6 +108,16 @@ func verifDaemon()                   {}
 func verifDormant()                  { runtime.Gosched() }
 func verifNumGoroutinesBlocked() int { return 0 }
 func verifEncode(v any, n int) []byte { return bencode.MustMarshal(v) }
+func verifEncodeWithout(v any, n int, keys string) []byte {
+	var d map[string]interface{}
+	if err := bencode.Unmarshal(bencode.MustMarshal(v), &d); err != nil {
+		panic(err)
+	}
+	for _, k := range strings.Split(keys, ",") {
+		delete(d, k)
+	}
+	return bencode.MustMarshal(d)
+}
 func verifEventCount(kind string) int { return 0 }
 func verifEvent(kind string)         {}
 func verifQuiesce()                  { time.Sleep(30 * time.Millisecond) }
